@@ -5,7 +5,8 @@ import N0Verif.Proofs.CompareDefaultTight
 /-!
 # C07 — the compare verdict is exact
 
-Model: `N0Verif/Model/Compare.lean` (the code with fix patches C07-a, C08-a, C09-a, C07-b, C07-c, C09-b, C10-a applied).
+Model: `N0Verif/Model/Compare.lean` (the code with fix patches C07-a, C08-a, C09-a, C07-b, C07-c, C09-b, C10-a and C07-d, C08-b, C10-c applied;
+the numeric delta of a not-equal pair is a flag of the entry — `NE.delta` — and never raises, fix C07-d).
 Only property statements live here; helper lemmas are in `Proofs/Compare*.lean`.
 -/
 namespace N0.C07
@@ -60,6 +61,19 @@ theorem C07_float_lexeme_cex :
     (compareTop (Cfg.default Flags.init false) cexF1 cexF2).map Res.diffs = .ok 2 ∧ eqv cexF1 cexF2 ∧
       jsonVal (.flt ['1']) = jsonVal (.int 1) :=
   ⟨float_lexeme_cex.1, float_lexeme_eqv, float_lexeme_cex.2.2.2.2.2.2⟩
+
+/-- **finding C07-e** (open): the two float zeros.  In Python `0.0 == -0.0` (and `direct_compare` reports nothing), but
+the key of a non-record list item is its JSON text and `json.dumps` writes `0.0` and `-0.0`: the default compare of
+`{'a': [0.0]}` against `{'a': [-0.0]}` reports both items as unique.  In the model floats are opaque lexemes (two
+lexemes are two values), so the model can only show the two keys and the two lines; that the two values are equal
+is the Python fact the harness oracle (`eqv` with `==`) supplies — evaluator `verdict/floats`, classifier
+`negzero_class`.  `KeyFaithfulOn` holds for this pair in the model (`deq` on lexemes), the float model is what hides it. -/
+theorem C07_negzero_cex :
+    jsonVal (.flt ['0', '.', '0']) ≠ jsonVal (.flt ['-', '0', '.', '0']) ∧
+    (compareTop (Cfg.default Flags.init false) (.dict .n0 [(['a'], .list .n0 [.flt ['0', '.', '0']])])
+      (.dict .n0 [(['a'], .list .n0 [.flt ['-', '0', '.', '0']])])).map
+        (fun r => (r.diffs, r.selfUnique.length, r.otherUnique.length)) = .ok (2, 1, 1) := by
+  decide
 
 theorem C07_default_exact_stmt_false_in_model : ¬ C07_default_exact_stmt := by
   intro h
